@@ -31,6 +31,16 @@ let fmt_qres r =
   | QErrInvalidInput -> "Err:InvalidInput"
   | QPanic -> "Panic"
 
+let fmt_zres r =
+  match r with
+  | ZOk q -> fmt_qres q
+  | ZErr UnexpectedEof -> "Err:UnexpectedEof"
+  | ZErr InvalidData -> "Err:InvalidData"
+  | ZErr InvalidInput -> "Err:InvalidInput"
+  | ZPanic -> "Panic"
+  | ZNoFuel -> "NoFuel"
+  | ZUnmodelled -> "?"
+
 let fmt_frecs (rs, e) =
   String.concat ";" (List.map (fun r ->
     String.concat ":" [hex_of_bytes r.r_name;
@@ -102,6 +112,38 @@ let handle kind a =
   | "fqr" ->
       let f = bytes_of_hex a.(0) in
       Some (fmt_qrecs (read_qfile f) ^ "|" ^ fmt_qindex (index_qfile f))
+  | "qz" ->
+      let frames = if a.(0) = "_" then [] else
+        List.map (fun p -> match split_on ':' p with
+          | [c; d] -> { csize = n_of_dec c; fdata = bytes_of_hex d }
+          | _ -> failwith "frame") (split_on ',' a.(0)) in
+      let gzi = if a.(1) = "_" then [] else
+        List.map (fun p -> match split_on ':' p with
+          | [c; u] -> (n_of_dec c, n_of_dec u) | _ -> failwith "gzi") (split_on ',' a.(1)) in
+      let prior = if a.(3) = "_" then [] else
+        List.map (fun p ->
+          let t = String.sub p 1 (String.length p - 1) in
+          match p.[0] with
+          | 'u' -> SeekU (n_of_dec t)
+          | 'r' -> Read (n_of_dec t)
+          | 'f' -> FillBuf
+          | 'c' -> Consume (n_of_dec t)
+          | _ -> failwith "prior") (split_on ',' a.(3)) in
+      Some (fmt_index (index_bgzf frames) ^ "|"
+            ^ String.concat "," (List.map fmt_zres (index_and_query_bgzf frames gzi prior (parse_regions a.(4)))))
+  | "qf" ->
+      let (bytes, rs) = via_file_many (bytes_of_hex a.(0)) (parse_regions a.(1)) in
+      if index_via_file (bytes_of_hex a.(0)) = None then Some (hex_of_bytes bytes ^ "|Err:Index")
+      else Some (hex_of_bytes bytes ^ "|" ^ String.concat "," (List.map (function VOk q -> fmt_qres q | VErrIndex -> "Err:Index") rs))
+  | "aq" ->
+      let f = bytes_of_hex a.(0) in
+      let cap = nat_of_int (int_of_string a.(1)) in
+      let codes = if a.(2) = "_" then [] else List.map (fun t -> nat_of_int (int_of_string t)) (split_on ',' a.(2)) in
+      Some (String.concat "," (List.map (fun (name, (s, _)) ->
+        match index_and_async_query cap codes f name s with
+        | (SOk, r) -> fmt_qres r
+        | (SNoFuel, _) -> "NoFuel") (parse_regions a.(3))))
+  | "fqg" -> Some (if fq_accepts (bytes_of_hex a.(0)) then "1" else "0")
   | _ -> None
 
 let () = run_driver handle
